@@ -3,7 +3,7 @@
 From Coq Require Import List ZArith Bool Lia.
 From TskVerif Require Import Base.Common C03.Model C03.Spec C03.ArrayProofs C03.AlleleProofs
      C03.PaintProofs C03.DecodeProofs C03.TraverseProofs C03.RuleProofs C03.CheckProofs C03.TotalProofs
-     C03.DfsTotalProofs.
+     C03.DfsTotalProofs C03.MutParents C03.ParentProofs.
 Import ListNotations.
 Open Scope Z_scope.
 
@@ -147,3 +147,16 @@ Proof.
   apply (decode_total_l (par_of ex_parent) (default_fuel ex_tree) ex_tree ex_v2 (zlen ex_parent)
            (default_fuel ex_tree) ex_site TR HT VN); [vm_compute; discriminate | exact MR].
 Qed.
+
+(* the mutation.parent column of ex_site as compute_mutation_parents gives it; it satisfies the
+   premise of parents_imply_order_ok, so order_ok follows without looking at the order *)
+Example ex_parents : check_parents ex_parent ex_tree ex_site [-1; 0; 1; 2; -1] = true.
+Proof. vm_compute. reflexivity. Qed.
+Example ex_parents_order_ok : order_ok (par_of ex_parent) (s_mutations ex_site).
+Proof. apply (parents_imply_order_ok_l _ (default_fuel ex_tree)). eapply parents_ok_b_sound. exact ex_parents. Qed.
+(* listing the mutation on the ancestor 5 after the one on 4 gives 4's mutation a *later* parent:
+   TSK_ERR_MUTATION_PARENT_AFTER_CHILD, the premise fails *)
+Example ex_parents_violation :
+  mut_parents (par_of ex_parent) 9 [4; 5] = Some [1; -1] /\
+  parents_ok_b (par_of ex_parent) 9 [4; 5] [1; -1] = false.
+Proof. split; vm_compute; reflexivity. Qed.
